@@ -67,15 +67,17 @@ func (o *ExtP2Claims) UnmarshalCBOR(data []byte) error { return encoding.Populat
 func (o ExtP2Claims) MarshalJSON() ([]byte, error)     { return encoding.SerializeStructToJSON(&o) }
 func (o *ExtP2Claims) UnmarshalJSON(data []byte) error { return encoding.PopulateStructFromJSON(data, o) }
 
-func newExtP2Claims() psatoken.IClaims {
+func newExtP2Claims() psatoken.IClaims { return newExtP2ClaimsNamed(ExtP2Name) }
+
+func newExtP2ClaimsNamed(name string) psatoken.IClaims {
 	p := eat.Profile{}
-	if err := p.Set(ExtP2Name); err != nil {
+	if err := p.Set(name); err != nil {
 		panic(err)
 	}
 	return &ExtP2Claims{P2Claims: psatoken.P2Claims{
 		Profile:          &p,
 		SwComponents:     &psatoken.SwComponents[*psatoken.SwComponent]{},
-		CanonicalProfile: ExtP2Name,
+		CanonicalProfile: name,
 	}}
 }
 
@@ -123,12 +125,13 @@ func (o ExtP1Claims) MarshalJSON() ([]byte, error) {
 }
 func (o *ExtP1Claims) UnmarshalJSON(data []byte) error { return encoding.PopulateStructFromJSON(data, o) }
 
-func newExtP1Claims() psatoken.IClaims {
-	name := ExtP1Name
+func newExtP1Claims() psatoken.IClaims { return newExtP1ClaimsNamed(ExtP1Name) }
+
+func newExtP1ClaimsNamed(name string) psatoken.IClaims {
 	return &ExtP1Claims{P1Claims: psatoken.P1Claims{
 		Profile:          &name,
 		SwComponents:     &psatoken.SwComponents[*psatoken.SwComponent]{},
-		CanonicalProfile: ExtP1Name,
+		CanonicalProfile: name,
 	}}
 }
 
@@ -174,16 +177,71 @@ func (o *OwnTagClaims) UnmarshalCBOR(data []byte) error { return encoding.Popula
 func (o OwnTagClaims) MarshalJSON() ([]byte, error)     { return encoding.SerializeStructToJSON(&o) }
 func (o *OwnTagClaims) UnmarshalJSON(data []byte) error { return encoding.PopulateStructFromJSON(data, o) }
 
-func newOwnTagClaims() psatoken.IClaims {
+func newOwnTagClaims() psatoken.IClaims { return newOwnTagClaimsNamed(OwnTagName) }
+
+func newOwnTagClaimsNamed(name string) psatoken.IClaims {
 	p := eat.Profile{}
-	if err := p.Set(OwnTagName); err != nil {
+	if err := p.Set(name); err != nil {
 		panic(err)
 	}
-	return &OwnTagClaims{Profile: OwnTagName, P2Claims: psatoken.P2Claims{
+	return &OwnTagClaims{Profile: name, P2Claims: psatoken.P2Claims{
 		Profile:          &p,
 		SwComponents:     &psatoken.SwComponents[*psatoken.SwComponent]{},
-		CanonicalProfile: OwnTagName,
+		CanonicalProfile: name,
 	}}
+}
+
+// ---- claims types that cannot be registered ----
+
+// NoProfClaims has no identifiable profile field (the embedded interface is
+// left nil, so there is nothing to descend into).
+type NoProfClaims struct {
+	psatoken.IClaims
+	Extra *int64 `cbor:"-75100,keyasint,omitempty" json:"extra,omitempty"`
+}
+
+// NoJSONTagClaims has a profile field (CBOR key 265) without a json tag.
+type NoJSONTagClaims struct {
+	psatoken.IClaims
+	Profile *string `cbor:"265,keyasint"`
+}
+
+// dynProfile: a profile of a given shape under an arbitrary name.
+type dynProfile struct {
+	name  string
+	shape string // ext-p2 | ext-p1 | own-tag | no-profile-field | no-json-tag
+}
+
+func (d dynProfile) GetName() string { return d.name }
+func (d dynProfile) GetClaims() psatoken.IClaims {
+	switch d.shape {
+	case "ext-p2":
+		return newExtP2ClaimsNamed(d.name)
+	case "ext-p1":
+		return newExtP1ClaimsNamed(d.name)
+	case "own-tag":
+		return newOwnTagClaimsNamed(d.name)
+	case "no-profile-field":
+		return &NoProfClaims{}
+	default:
+		return &NoJSONTagClaims{}
+	}
+}
+
+func shapeType(shape string) string {
+	switch shape {
+	case "ext-p2":
+		return "*checks.ExtP2Claims"
+	case "ext-p1":
+		return "*checks.ExtP1Claims"
+	case "own-tag":
+		return "*checks.OwnTagClaims"
+	case "p1":
+		return "*psatoken.P1Claims"
+	case "p2":
+		return "*psatoken.P2Claims"
+	}
+	return "?"
 }
 
 type ownTagProfile struct{}
